@@ -260,11 +260,12 @@ def c16_extra(Job, tier):
     cfg = CFG_NDEBUG
     return [Job("D_connect_drives_%s" % cfg[0], "harness/dfs_storage.c", "h_connect", enforce=["connect_drives"],
                 replace=["check_sequence_fits", "SurfaceSelector_next"], loops=True, defines=list(cfg[1]),
-                extract=ext(STORAGE_GROUP + ["connect_drives"]), tier="quick", cover=True, solver="portfolio", timeout=900)] + viewfile_jobs(Job) + mmb_jobs(Job)
+                extract=ext(STORAGE_GROUP + ["connect_drives"]), tier="quick", cover=True, solver="portfolio", timeout=900)] + viewfile_jobs(Job) + mmb_jobs(Job) + mainopt_jobs(Job)
 
 
 # ---- C17 extra: Opus volume extents ----------------------------------------------------------------------------
-OPUS_GROUP = ["VolumeLocation_set_next_sector", "VolumeLocation_len", "VolumeLocation_start_sector", "opus_volume_extents"]
+OPUS_GROUP = ["VolumeLocation_set_next_sector", "VolumeLocation_len", "VolumeLocation_start_sector", "opus_volume_extents",
+              "sector_count", "Geometry_total_sectors", "safe_unsigned_multiply_u", "VolumeLocation_ctor", "opus_ctor_head", "opus_volume_table"]
 
 
 def opus_jobs(Job, cfg=CFG_NDEBUG, tier="quick"):
@@ -273,7 +274,10 @@ def opus_jobs(Job, cfg=CFG_NDEBUG, tier="quick"):
                    extract=ext(OPUS_GROUP), tier=tier, **kw)
     return [J("volume_set_next_sector", "h_set_next", ["VolumeLocation_set_next_sector"]),
             J("volume_len", "h_len", ["VolumeLocation_len"]), J("volume_start_sector", "h_start", ["VolumeLocation_start_sector"]),
-            J("opus_volume_extents", "h_extents", ["opus_volume_extents"], replace=["VolumeLocation_set_next_sector", "VolumeLocation_start_sector"], loops=True, solver="portfolio")]
+            J("opus_volume_extents", "h_extents", ["opus_volume_extents"], replace=["VolumeLocation_set_next_sector", "VolumeLocation_start_sector"], loops=True, solver="portfolio"),
+            J("volume_location_ctor", "h_vl_ctor", ["VolumeLocation_ctor"]),
+            J("opus_ctor_head", "h_ctor_head", ["opus_ctor_head"], replace=["Geometry_total_sectors"]),
+            J("opus_volume_table", "h_table", ["opus_volume_table"], loops=True, solver="portfolio")]
 
 
 def c17_extra(Job, tier):
@@ -339,7 +343,7 @@ def c06_extra(Job, tier):
 
 
 def c07_extra(Job, tier):
-    return trackcheck_jobs(Job) + mmb_jobs(Job) + write_span_jobs(Job) + selector_jobs(Job) + [j for j in names_jobs(Job) if "less" in j.name] + [j for j in space_jobs(Job) if "start_sec" in j.name] + hfegeom_jobs(Job) + [j for j in hfelut_jobs(Job) if "read_track" in j.name or "decode_header" in j.name]
+    return trackcheck_jobs(Job) + mmb_jobs(Job) + write_span_jobs(Job) + selector_jobs(Job) + [j for j in names_jobs(Job) if "less" in j.name] + [j for j in space_jobs(Job) if "start_sec" in j.name] + hfegeom_jobs(Job) + [j for j in gz_jobs(Job) if "inflate_loop" in j.name] + [j for j in opus_jobs(Job) if "opus_ctor_head" in j.name or "opus_volume_table" in j.name or "location_ctor" in j.name] + [j for j in hfelut_jobs(Job) if "read_track" in j.name or "decode_header" in j.name]
 
 
 # ---- destination directory / make_name (C12) ---------------------------------------------------------------------------
@@ -490,7 +494,7 @@ def fsp_jobs(Job, cfg=CFG_NDEBUG, tier="quick"):
 
 
 def c15_extra(Job, tier):
-    return fsp_jobs(Job) + names_jobs(Job) + prefix_jobs(Job)
+    return fsp_jobs(Job) + names_jobs(Job) + prefix_jobs(Job) + mainopt_jobs(Job)[:1]
 
 
 def catsort_jobs(Job, cfg=CFG_NDEBUG, tier="quick"):
@@ -533,7 +537,7 @@ def geometry_jobs(Job, cfg=CFG_NDEBUG, tier="quick"):
 
 
 def c13_extra(Job, tier):
-    return geometry_jobs(Job) + [j for j in opus_jobs(Job) if "extents" in j.name]
+    return geometry_jobs(Job) + [j for j in fragment_jobs(Job) if "valid_head" in j.name] + [j for j in opus_jobs(Job) if "extents" in j.name or "opus_ctor_head" in j.name or "opus_volume_table" in j.name]
 
 
 def hints_jobs(Job, cfg=CFG_NDEBUG, tier="quick"):
@@ -575,14 +579,15 @@ def names_jobs(Job, cfg=CFG_NDEBUG, tier="quick"):
             J("has_name", "h_has_name", ["CatalogEntry_has_name"], replace=["case_insensitive_equal", "CatalogEntry_directory"])]    # CatalogEntry::name inlined (its contract speaks about one ghost position only)
 
 
-FRAG_GROUP = ["sector_count", "byte_to_ascii7", "convert_title", "CatalogFragment_ctor"]
+FRAG_GROUP = ["sector_count", "byte_to_ascii7", "convert_title", "CatalogFragment_ctor", "catalog_sectors_for_format", "data_sectors_reserved_for_catalog", "CatalogFragment_valid_head"]
 
 
 def fragment_jobs(Job, cfg=CFG_NDEBUG, tier="quick"):
     def J(name, entry, enforce, **kw):
         return Job("D_%s_%s" % (name, cfg[0]), "harness/dfs_fragment.c", entry, enforce=enforce, defines=list(cfg[1]), extract=ext(FRAG_GROUP), tier=tier, **kw)
     return [J("convert_title", "h_title", ["convert_title"], cbmc=["--unwindset", "convert_title_wrapped_for_contract_checking.0:9,convert_title_wrapped_for_contract_checking.1:5,convert_title.0:9,convert_title.1:5,cstr_rtrim.0:17", "--unwinding-assertions"]),
-            J("catalog_fragment_ctor", "h_fragment", ["CatalogFragment_ctor"], replace=["sector_count"])]
+            J("catalog_fragment_ctor", "h_fragment", ["CatalogFragment_ctor"], replace=["sector_count"]),
+            J("catalog_fragment_valid_head", "h_valid_head", ["CatalogFragment_valid_head"], replace=["catalog_sectors_for_format", "data_sectors_reserved_for_catalog"])]
 
 
 def extractwrite_jobs(Job, cfg=CFG_NDEBUG, tier="quick"):
@@ -613,6 +618,14 @@ def hfelut_jobs(Job, cfg=CFG_NDEBUG, tier="quick"):
             J("read_track_offset_lut", "h_read_lut", ["read_track_offset_lut"], loops=True, cover=True, replay=NR.replay_hfe_lut_offset),
             J("hfe_decode_header", "h_decode_header", ["hfe_decode_header"]),
             J("hfe_lut_call", "h_lut_call", ["hfe_lut_call"], replay=NR.replay_hfe_lut_offset)]
+
+
+def mainopt_jobs(Job, cfg=CFG_NDEBUG, tier="quick"):
+    g = ["dfs_opt_table", "dfs_main_option"]
+    return [Job("D_dfs_main_option_%s" % cfg[0], "harness/dfs_mainopt.c", "h_main_option", enforce=["dfs_main_option"], defines=list(cfg[1]), extract=ext(g), tier=tier),
+            # a constant table of ten entries: unwinding its scan is complete, not a bounded stand-in
+            Job("D_dfs_opt_table_%s" % cfg[0], "harness/dfs_mainopt.c", "h_opt_table", enforce=[], defines=list(cfg[1]), extract=ext(g), tier=tier,
+                cbmc=["--unwindset", "table_find_.0:17,str_eq_.0:17", "--unwinding-assertions"])]
 
 
 def prefix_jobs(Job, cfg=CFG_NDEBUG, tier="quick"):
